@@ -262,7 +262,8 @@ def gen_case(rng, it):
     n = int(rng.choice([5, 6, 8, 12, 20, 36, 72, 120, 200])) if it % 3 else int(rng.integers(5, 201))
     kind = ["season", "noise", "walk", "steps", "spiky", "smallrange", "neg", "const", "linear"][it % 9]
     if kind == "const":
-        y = np.full(n, float(rng.integers(-5000, 5000)))
+        # 0 is the constant people special-case (an all-dry pixel): every fit, residual and score is exactly 0.0
+        y = np.full(n, float([0, rng.integers(-5000, 5000), 0, 1, -1, rng.integers(-5000, 5000)][(it // 12) % 6]))
     elif kind == "linear":
         y = (rng.integers(-20, 21) * np.arange(n) + rng.integers(-3000, 3000)).astype(float)
     else:
